@@ -1177,7 +1177,7 @@ func (c *Ctx) stateConfinement() {
 				default:
 					name := "a call"
 					if cc.IsInvoke() {
-						name = cc.Method.Name()
+						name = engine.MethodName(cc.Method)
 					} else if sc != nil {
 						name = engine.ShortName(sc)
 					} else {
@@ -1757,13 +1757,13 @@ func (c *Ctx) connectionsCloseWithTheServer() {
 				if !isDefer {
 					continue
 				}
-				if d.Call.IsInvoke() && d.Call.Method.Name() == "Close" && sameOrCell(d.Call.Value, conn) {
+				if d.Call.IsInvoke() && engine.MethodName(d.Call.Method) == "Close" && sameOrCell(d.Call.Value, conn) {
 					ok = true
 				}
 				// defer func() { conn.Close() }()
 				if fn := engine.FuncValue(d.Call.Value); fn != nil {
 					for _, cs := range engine.Calls(fn) {
-						if cs.Common().IsInvoke() && cs.Common().Method.Name() == "Close" && isConn(cs.Common().Value.Type()) {
+						if cs.Common().IsInvoke() && engine.MethodName(cs.Common().Method) == "Close" && isConn(cs.Common().Value.Type()) {
 							ok = true
 						}
 					}
